@@ -259,17 +259,21 @@ def remove_last_whitespace(context, line):
         assert resume is None
         space_width = box.width - new_box.width
         box.width = new_box.width
+        box.pango_layout = new_box.pango_layout
     else:
         space_width = box.width
         box.width = 0
         box.text = ''
 
-    # RTL line, the trailing space is at the left of the box. We have to translate the
-    # box to align the stripped text with the right edge of the box.
+    # RTL line, the trailing space was at the left of the box. The box and its
+    # parents stay where they are, we have to translate the boxes on their
+    # right to fill the room of the space.
     if box.pango_layout.first_line_direction % 2:
         for child in line.children:
             if not child.is_floated():
                 child.translate(dx=-space_width, ignore_floats=True)
+        for ancestor in (*ancestors[1:], box):
+            ancestor.position_x += space_width
 
     for ancestor in ancestors:
         ancestor.width -= space_width
